@@ -1,7 +1,9 @@
 (* C20 — the preview always catches up with the focused line (partial: the state machine is proved for all
    schedules; signal delivery, timers and the process table of the real program are observed by the harness).
    Statements only; proofs live in proofs/PreviewProofs.v.  `pol` ranges over the machines described in
-   model/PreviewModel.v; `coded` is the tree (b3cab5f + 268c349 + 5b17ce0). *)
+   model/PreviewModel.v; `coded` is the tree (b3cab5f + 268c349 + 5b17ce0).  A preview command may close its
+   output and go on running (label LCloseOut): the end of the output and the end of the process are different
+   events, and every theorem below quantifies over schedules that contain both. *)
 From Fzf Require Import Prelude PreviewSpec PreviewModel PreviewProofs.
 Open Scope Z_scope.
 
@@ -36,15 +38,27 @@ Theorem superseded_get_cancel : forall pol sched t u,
 Proof. exact superseded_get_cancel_proof. Qed.
 Print Assumptions superseded_get_cancel.
 
-(* Catching up cannot get stuck: with the mailbox poll (b3cab5f), whenever no goroutine of fzf can take a step in a
-   live session, the mailbox is empty, i.e. the state is quiescent and latest_wins applies.  Fairness assumption of
-   the reading "eventually": enabled render / previewer / poll / timer / kill steps do fire; then a session that is
-   left alone either reaches such a state or only receives output from the one command latest_wins speaks about. *)
-Theorem stable_is_quiescent : forall pol sched t u, pol_poll pol = true ->
+(* Catching up cannot get stuck: with the mailbox poll (b3cab5f), and with goroutine 3 told to stop only after
+   cmd.Wait() has returned (pol_early = false: the order of `cmd.Wait()` and `finishChan <- true` in the tree),
+   whenever no goroutine of fzf can take a step in a live session, the mailbox is empty, i.e. the state is quiescent
+   and latest_wins applies.  This covers commands whose output ends long before they do (LCloseOut).  Fairness
+   assumption of the reading "eventually": enabled render / previewer / poll / timer / kill steps do fire; then a
+   session that is left alone either reaches such a state or only receives output from the one command latest_wins
+   speaks about.  Without pol_early = false the statement is false: stable_is_quiescent_refuted_finish_at_eof. *)
+Theorem stable_is_quiescent : forall pol sched t u, pol_poll pol = true -> pol_early pol = false ->
   let s := run pol sched (init t u) in
   stable pol s = true -> s_running s = true -> quiescent pol s = true.
 Proof. exact stable_is_quiescent_proof. Qed.
 Print Assumptions stable_is_quiescent.
+
+(* For as long as a preview command is alive, goroutine 3 has not left: it is listening for cancel / kill / quit, or
+   is in its grace period, or is about to kill, whether or not the command's output has already ended.  (With
+   stable_is_quiescent: a superseded command that has closed its output and lives on is still terminated.) *)
+Theorem alive_has_canceller : forall pol sched t u, pol_early pol = false ->
+  let s := run pol sched (init t u) in
+  forall p, In p (alive_procs s) -> exists w rd d, s_ph s = PRun w rd d /\ w <> WDone.
+Proof. exact alive_has_canceller_proof. Qed.
+Print Assumptions alive_has_canceller.
 
 (* When the process is gone no preview command is alive, for every schedule, when the exit path waits for the
    previewer goroutine (5b17ce0).  Trusted: SIGKILL to the command's process group kills it (LKill). *)
@@ -126,6 +140,34 @@ Example latest_wins_refuted_batch :
   exists p rest, s_tab s = p :: rest /\ expand_req (p_req p) <> Ok (expansion (s_tmpl s) (s_ui s)).
 Proof. vm_compute. repeat split; try reflexivity. eexists _, _; split; [reflexivity|discriminate]. Qed.
 
+(* finishChan sent at the end of the OUTPUT, before cmd.Wait() (seed C20-5): the command for item 0 prints a line,
+   closes its output and lives on; goroutine 3 leaves; the cursor moves to item 1: the request stays in the mailbox
+   for ever, no goroutine of fzf can take a step, the superseded command is alive and nobody can kill it *)
+Definition closes_then_superseded : list label :=
+  [LRender; LTake; LSpawn; LOutput [120]; LCloseOut; LDisplay; LMove 1; LRender].
+Example stable_is_quiescent_refuted_finish_at_eof :
+  let s := run finish_at_eof closes_then_superseded (init T0 U0) in
+  stable finish_at_eof s = true /\ s_running s = true /\ quiescent finish_at_eof s = false /\ box_empty s = false /\
+  s_ph s = PRun WDone true false /\
+  exists p, alive_procs s = [p] /\ expand_req (p_req p) <> Ok (expansion (s_tmpl s) (s_ui s)).
+Proof. vm_compute. repeat split; try reflexivity. eexists; split; [reflexivity|discriminate]. Qed.
+(* the same schedule on the machine of the tree: goroutine 3 has received the cancellation and is about to kill (the
+   output was rendered, so there is no grace period); after the kill the command for item 1 starts *)
+Example closes_then_superseded_on_tree :
+  let s := run coded closes_then_superseded (init T0 U0) in
+  enabled coded LKill s = true /\
+  let s' := run coded [LKill; LReap; LTake; LSpawn] s in
+  exists p, alive_procs s' = [p] /\ expand_req (p_req p) = Ok (expansion (s_tmpl s') (s_ui s')).
+Proof. vm_compute. split; [reflexivity|]. eexists; split; reflexivity. Qed.
+(* and the same machine at the end of the session: the exit path waits for a previewer that is blocked in cmd.Wait()
+   with nobody left to kill the command (in the code the wait is bounded by 500 ms, after which the process ends
+   and the command survives: observed by the harness, check none_survives_exit) *)
+Example exit_stuck_finish_at_eof :
+  let s := run finish_at_eof [LRender; LTake; LSpawn; LOutput [120]; LCloseOut; LDisplay; LExit] (init T0 U0) in
+  stable finish_at_eof s = true /\ s_ended s = false /\ enabled finish_at_eof LQuitPub s = false /\
+  length (alive_procs s) = 1%nat.
+Proof. vm_compute. repeat split; reflexivity. Qed.
+
 (* ---------------------------------------------------------------- non-vacuity *)
 
 (* a history with moves, a query, a selection, a superseded never-ending command, incremental output: the final
@@ -144,6 +186,22 @@ Proof. vm_compute. repeat split; reflexivity. Qed.
 (* and a complete session end on the machine of the tree *)
 Example c20_exit_nonvacuous :
   let s := run coded [LRender; LTake; LSpawn; LExit; LQuitPub; LKill; LReap; LTake; LQuitPub; LProcEnd] (init T0 U0) in
+  s_ended s = true /\ alive_procs s = [] /\ length (s_tab s) = 1%nat.
+Proof. vm_compute. repeat split; reflexivity. Qed.
+
+(* commands that print, close their output and go on running: the first is superseded by a move (killed at once: its
+   output was rendered), the second is the command for the current line, alive, its output shown; the hypotheses of
+   latest_wins / superseded_get_cancel / alive_has_canceller hold; and a session end with such a command alive *)
+Example c20_closed_output_nonvacuous :
+  let s := run coded [LRender; LTake; LSpawn; LOutput [120]; LCloseOut; LDisplay;
+                      LMove 1; LRender; LKill; LReap; LTake; LSpawn; LOutput [121]; LCloseOut; LDisplay] (init T0 U0) in
+  quiescent coded s = true /\ s_visible s = true /\ s_clean s = true /\ length (s_tab s) = 2%nat /\
+  length (alive_procs s) = 1%nat /\ hd_open (s_tab s) = false /\ s_ph s = PRun WListen true false /\
+  s_shown s = [[121]] /\ expansion (s_tmpl s) (s_ui s) = mkA 1 1 (Some [1]) (Some []).
+Proof. vm_compute. repeat split; reflexivity. Qed.
+Example c20_closed_output_exit_nonvacuous :
+  let s := run coded [LRender; LTake; LSpawn; LOutput [120]; LCloseOut; LDisplay;
+                      LExit; LKill; LReap; LTake; LQuitPub; LProcEnd] (init T0 U0) in
   s_ended s = true /\ alive_procs s = [] /\ length (s_tab s) = 1%nat.
 Proof. vm_compute. repeat split; reflexivity. Qed.
 
